@@ -17,6 +17,7 @@ type Val struct {
 	F    []*Val // aggregate components
 	LV   *LVal  // for pointers: the l-value pointed to (nil: plain heap ref in S)
 	Fn   *FnVal // statically known function value
+	AutoDeref bool // captured variable: the name denotes *ptr in contracts
 }
 
 type FnVal struct {
@@ -53,6 +54,7 @@ type LVal struct {
 	Root   types.Type // type of root object (struct/boxed type/elem type/cell type)
 	Path   []pathStep
 	Global string
+	VarCell bool // the heap cell of a captured / escaping local variable (component family var<T>)
 }
 
 func (v *Val) IsAgg() bool { return v.F != nil }
